@@ -2,6 +2,7 @@ package c01
 
 import (
 	"fmt"
+	"strings"
 
 	"wrverif/rng"
 )
@@ -18,7 +19,7 @@ var invalidDecls = []Decl{
 	{Name: "grid-template-columns", Value: "repeat(1fr)"}, {Name: "flex", Value: "1 2 3 4"}, {Name: "page-break-before", Value: "sometimes"},
 	{Name: "width", Value: "calc(1px +)"}, {Name: "background", Value: "url(a) url(b) red red"}, {Name: "z-index", Value: "1.5"},
 	{Name: "line-height", Value: "-1"}, {Name: "padding", Value: "-1px"}, {Name: "width", Value: "[10px]"}, {Name: "color", Value: "{red}"},
-	{Name: "counter-reset", Value: "1"}, {Name: "size", Value: "10px"}, {Name: "1width", Value: "10px"}, {Name: "width", Value: "10px !importan"},
+	{Name: "counter-reset", Value: "1"}, {Name: "1width", Value: "10px"}, {Name: "width", Value: "10px !importan"},
 	{Name: "orphans", Value: "0.5"}, {Name: "text-align", Value: "middle"}, {Name: "display", Value: "table table"}, {Name: "break-before", Value: "page page"},
 }
 
@@ -42,7 +43,9 @@ func Inject(d *Doc, r *rng.R) bool {
 		rs := allRules(d)
 		var cand []*Rule
 		for _, ru := range rs {
-			if ru.Raw == "" {
+			// declaration blocks only: the body of @media is a rule list, where a stray declaration
+			// legitimately merges with the following rule's prelude
+			if ru.Raw == "" && !strings.HasPrefix(ru.Prelude, "@media") {
 				cand = append(cand, ru)
 			}
 		}
@@ -73,8 +76,14 @@ func Inject(d *Doc, r *rng.R) bool {
 		n.Style = append(n.Style[:p:p], append([]Decl{dd}, n.Style[p:]...)...)
 		d.InjWhat = fmt.Sprintf("style-declaration `%s` into the style attribute of <%s>", dd.String(), n.Tag)
 		return true
-	case 3: // invalid / unknown rule between the author rules
+	case 3: // invalid / unknown rule between the author rules (or in the user sheet)
 		ru := &Rule{Raw: invalidRules[r.Intn(len(invalidRules))], Inj: true}
+		if r.P(1, 3) {
+			p := r.Intn(len(d.User) + 1)
+			d.User = append(d.User[:p:p], append([]*Rule{ru}, d.User[p:]...)...)
+			d.InjWhat = fmt.Sprintf("rule `%s` at user-sheet position %d", ru.Raw, p)
+			return true
+		}
 		// never in front of an @import / @namespace / @charset statement (they must come first)
 		lo := 0
 		for i, a := range d.Author {
